@@ -7,8 +7,8 @@
 //! again and compared as JSON; all under `catch_unwind`.  `ret=ok`, `ret=err:<stage>:<message>` or
 //! `ret=panic`.  The Lean driver expects `ok` (`FAIL oracle stored_form_roundtrips` otherwise).
 //!
-//! The registry is `ALL`; `v6mapped` shapes (an IPv4-mapped IPv6 prefix) are *not* in the generated
-//! set: they fail on the unchanged tree (reported finding, `TypedPrefix::from_str`), run them by hand.
+//! The registry is `ALL`; it includes the `v6mapped` shapes (an IPv4-mapped IPv6 prefix, written with a
+//! dotted tail), which could not be read back before fix 53940576 of `TypedPrefix::from_str` (F-C06-1).
 
 use std::str::FromStr;
 use krill::api::admin::{ResourceClassNameMapping, StorableParentContact};
@@ -122,14 +122,14 @@ pub const ALL: &[(&str, &str)] = &[
     ("PropertiesEvent", "KrillVersionUpgraded"),
     ("RoaConfigurationUpdates", "empty"), ("RoaConfigurationUpdates", "both"),
     ("RoaPayloadJsonMapKey", "v4"), ("RoaPayloadJsonMapKey", "v6"), ("RoaPayloadJsonMapKey", "v6-compressed-middle"), ("RoaPayloadJsonMapKey", "as0"),
-];
-
-/// Shapes that are registered but not generated (known to fail on the unchanged tree).
-#[allow(dead_code)]
-pub const BY_HAND: &[(&str, &str)] = &[
+    // an IPv4-mapped IPv6 prefix is written with a dotted tail (F-C06-1, fixed in /repo 53940576: it could not be read back)
     ("RoaPayloadJsonMapKey", "v6mapped"), ("CertAuthEvent", "RouteAuthorizationAdded:v6mapped"),
     ("CertAuthStorableCommand", "RoaDefinitionUpdates:v6mapped"),
 ];
+
+/// Shapes that are registered but not generated (known to fail on the unchanged tree): none at present.
+#[allow(dead_code)]
+pub const BY_HAND: &[(&str, &str)] = &[];
 
 fn signer_cmd(n_https: usize, rrdp: bool) -> TrustAnchorSignerStorableCommand {
     TrustAnchorSignerStorableCommand::from(&TrustAnchorSignerCommandDetails::TrustAnchorSignerReissueRequest {
